@@ -139,7 +139,8 @@ func c3ChunkFaults(r *zzverif.Rng, want int, allowStall bool) []c3Chunk {
 	}
 	if allowStall {
 		// single-part layers only (like stalls): the caller interrupts the pull
-		out = append(out, c3Body_("honest", "cancel", cut), c3Body_("honest", "cancel", 0), c3Body_("full", "cancel", cut))
+		out = append(out, c3Body_("honest", "cancel", cut), c3Body_("honest", "cancel", 0), c3Body_("full", "cancel", cut),
+			c3Body_("honest", "cancel", -1), c3Chunk{src: "flip", flip: 0, cut: -1, end: "cancel"}) // … at the last byte of the layer
 		out = append(out, c3Body_("honest", "stall", cut), c3Body_("honest", "stall", 0),
 			c3Chunk{src: "junk", junk: []byte("e"), cut: -1, end: "stall"})
 	}
@@ -230,6 +231,27 @@ func c3Enum(root *zzverif.Rng, maxLayers int, emit func(*c3Case)) {
 				faults = append(faults, fault{stream: "h", reps: []c3Reply{c3Unauth(good)}, tok: []bool{false}},
 					fault{stream: "d", reps: []c3Reply{c3Unauth(good), c3K("status")}, tok: []bool{false}},
 					fault{stream: "h", reps: []c3Reply{c3Unauth(c3OddHeaders[3])}})
+				// the caller cancels at a progress callback (between two store effects of PullModel), alone and together
+				// with a CDN fault on this layer that only the SHA-256 catches
+				for _, cp := range []string{"start", "writing", "verifying 0", "verifying 1", "verifying 2"} {
+					for _, corrupt := range []string{"", "flip", "junk"} {
+						c, dig, content, np := mk()
+						a := c3Attempt{cancel: cp}
+						if corrupt != "" {
+							var scripts [][]c3Chunk
+							for p := 0; p < np; p++ {
+								ch := c3Chunk{src: "flip", flip: 0, cut: -1, end: "eof"}
+								if corrupt == "junk" {
+									ch = c3Chunk{src: "junk", junk: bytes.Repeat([]byte("<html>503</html>"), len(content)/8+2), cut: -1, end: "eof"}
+								}
+								scripts = append(scripts, []c3Chunk{ch})
+							}
+							a.ls = []c3LScript{{dig: dig, chunks: scripts}}
+						}
+						c.attempts = c3HonestTail(c, []c3Attempt{a})
+						emit(c)
+					}
+				}
 				faults = append(faults, fault{stream: "c"})
 				for _, f := range faults {
 					if f.stream != "c" {
@@ -634,6 +656,9 @@ func c3Random(r *zzverif.Rng) *c3Case {
 			}
 			a.ls = append(a.ls, ls)
 		}
+		if r.Chance(1, 6) {
+			a.cancel = zzverif.Pick(r, []string{"start", "writing", "verifying 0", "verifying 0", "verifying 1", "verifying 2"})
+		}
 		c.attempts = append(c.attempts, a)
 	}
 	c.attempts = c3HonestTail(c, c.attempts)
@@ -876,7 +901,7 @@ func c3RunCase(t *testing.T, out *zzverif.Out, c *c3Case) {
 	// with bad resume state legitimately needs k+1 honest attempts: the verdict is only given when the
 	// history ends with that many.
 	honest := 0
-	for i := len(c.attempts) - 1; i >= 0 && len(c.attempts[i].ls)+len(c.attempts[i].ms)+len(c.attempts[i].tok) == 0; i-- {
+	for i := len(c.attempts) - 1; i >= 0 && len(c.attempts[i].ls)+len(c.attempts[i].ms)+len(c.attempts[i].tok) == 0 && c.attempts[i].cancel == ""; i-- {
 		honest++
 	}
 	if honest >= c3HonestNeeded(c) && initialGood && c3RegHonest(c) && lastClass != "ok" && !strings.HasPrefix(lastClass, "panic") {
